@@ -1,13 +1,14 @@
-\* quick tier, the variant that creates the arena OUTSIDE the critical section: same invariants
+\* EXPECTED TO FAIL: the variant that creates the arena OUTSIDE the critical section (the MutexGuard is dropped right after
+\* `pop`) violates the reuse clause of C19 -- TLC exhibits a behaviour in which a guard is dropped between the empty lookup
+\* and the creation, so an arena is created while another one is idle (and more arenas exist than guards were ever live).
 SPECIFICATION Spec
 CONSTANTS
-    Threads = {t1, t2, t3}
+    Threads = {t1, t2}
     MaxRounds = 1
     MaxChunks = 1
-    MaxPoolOps = 1
+    MaxPoolOps = 0
     CreateUnderLock = FALSE
-    MayFail = TRUE
+    MayFail = FALSE
     MayForget = FALSE
-SYMMETRY Symm
-INVARIANTS TypeOK MutexOK OwnerOK Exclusive IdleDisjoint Conservation ReuseOK ReuseTight DataIntact
-PROPERTIES DecideCreateOnlyWhenIdleEmpty BlocksOnlyForgottenByPoolOps ResetRewindsAll DropReleasesAll LeakedStayValid
+INVARIANTS TypeOK MutexOK OwnerOK Exclusive IdleDisjoint Conservation DataIntact
+PROPERTIES CreatedOnlyWhenIdleEmpty
